@@ -10,6 +10,7 @@ import TV.ShapeOK.Stack
 #print axioms TV.C11.C11_heap_fix
 #print axioms TV.C11.C11_heap_init
 #print axioms TV.C11c.C11_concurrent_conservation
+#print axioms TV.C11c.C11_concurrent_heap_order
 #print axioms TV.C11c.pinned_C11_two_pops_panic
 #print axioms TV.ShapeOK.Stack.discipline
 #print axioms TV.ShapeOK.Stack.sections
